@@ -30,13 +30,13 @@ FAULTS = ["raise", "type-list", "type-none", "shape-unreduced", "shape-extra", "
 # ------------------------------------------------------------------------------------------------
 def pure(fn):
     if fn == "red_scale_sum":
-        return lambda t, axis, *, scale=1, tag=None: np.asarray(np.sum(t, axis=axis) * scale)
+        return lambda t, axis, *, scale=1, tag=None: np.asarray(np.sum(t, axis=axis) * (3 if scale is None else scale))  # None is a value of its own, not the default
     if fn == "red_max_init":
         return lambda t, axis, *, initial=None: np.asarray(np.max(t, axis=axis) if initial is None else np.max(t, axis=axis, initial=initial))
     if fn == "red_mean_dtype":
         return lambda t, axis, *, dtype=None: np.asarray(np.mean(t, axis=axis, dtype=dtype))
     if fn == "el_axpy":
-        return lambda p, q, *, alpha=1, tag=None: np.asarray(p + alpha * q)
+        return lambda p, q, *, alpha=1, tag=None: np.asarray(p + (3 if alpha is None else alpha) * q)
     if fn == "el_where":
         return lambda c, p, q: np.asarray(np.where(c, p, q))
     if fn == "el_clip":
@@ -105,6 +105,8 @@ def kw_values(r, fn):
     def num():
         v = r.choice([1, 2, 3])
         c = r.random()
+        if c < 0.06:
+            return None  # an explicit None for a parameter whose default is not None
         if c < 0.12:
             return r.choice([-1, -2, -1, -2, -3])  # hash(-1) == hash(-2) in CPython
         if c < 0.18:
@@ -145,9 +147,9 @@ def kw_values(r, fn):
             kw["tag"] = tag()
     elif fn == "el_clip":
         if r.random() < 0.7:
-            kw["lo"] = r.choice([0, 1, 1.0, 2])
+            kw["lo"] = r.choice([0, 1, 1.0, 2, None])  # np.clip: None = no bound
         if r.random() < 0.7:
-            kw["hi"] = r.choice([3, 3.0, 5, {"np": "int64", "value": 4}])
+            kw["hi"] = r.choice([3, 3.0, 5, {"np": "int64", "value": 4}, None])
     return kw
 
 
@@ -204,7 +206,7 @@ def gen_case(seed, cfg, index=0):
             if r.random() < 0.35:  # values that an imprecise cache key would conflate with the earlier call's
                 kw = dict(prev["kw"])
                 for k2, v2 in list(kw.items()):
-                    if isinstance(v2, bool) or not isinstance(v2, int | float):
+                    if v2 is None or isinstance(v2, bool) or not isinstance(v2, int | float):
                         continue
                     if v2 in (-1, -2):
                         kw[k2] = type(v2)(-3 - v2)  # hash(-1) == hash(-2)
